@@ -6,9 +6,9 @@
    work on the parameter t and on link flags), so they are unchanged by construction of the
    model.  The absolute 1e-10 cut-off of the assembly (Model/Assemble.v close_to_zero, explicit
    in C17_filter_invisible) is NOT unit-covariant: see the known finding K-C09-assembly-cutoff. *)
-From Coq Require Import ZArith QArith Qabs Reals List Bool Arith.
+From Coq Require Import ZArith QArith Qabs Reals List Bool Arith Lia.
 From Inkfem Require Import Num.NumOps Gen.GenStiffness Gen.GenLoads Gen.GenRecover Spec.Stiffness
-  Model.Types Proofs.StiffnessQ Proofs.UnitsProofs Gen.GenSolver Gen.GenAccept Proofs.SolverProofs Proofs.AcceptBound Model.Slice Model.Loads Spec.Resultant Proofs.UnitsBar.
+  Model.Types Proofs.StiffnessQ Proofs.UnitsProofs Gen.GenSolver Gen.GenAccept Proofs.SolverProofs Proofs.AcceptBound Model.Slice Model.Loads Model.Dof Model.Assemble Spec.Resultant Spec.Superposition Proofs.AssembleProofs Proofs.SystemProofs Proofs.UnitsBar Proofs.UnitsStructure.
 Import ListNotations.
 
 Theorem C09_stiffness_units_R : forall (L c s t1 t2 E A I lam phi x1 y1 r1 x2 y2 r2 : R),
@@ -104,3 +104,76 @@ Example C09_bar_example :
   length (preprocess_bar true c09_bar) = 14%nat /\ length (preprocess_bar true (units_bar (1 # 100) (1 # 1000) c09_bar)) = 14%nat /\
   bar_rel (1 # 100) 1 0 0 0 ((1 # 1000) / (1 # 100)) (1 # 1000) c09_bar (units_bar (1 # 100) (1 # 1000) c09_bar).
 Proof. split; [vm_compute; reflexivity|]. split; [vm_compute; reflexivity|]. apply units_bar_rel. discriminate. Qed.
+
+(* the whole structure of the model: bars sliced (preprocess_bar, with or without own weight), numbered (any numbering whose
+   numbers are translation, translation, rotation at every node: rot tells which equations are rotation equations) and
+   assembled (Model/Assemble.v, the system handed to the solver).  Written in the other unit system the structure gets the
+   system whose rows are the old ones x phi (force equations) or x phi lam (moment equations) in the converted unknowns:
+   the converted displacements (translations x lam, rotations unchanged) solve it whenever the original ones solve the
+   original system.  Assumed, besides a length for every finite element: no stiffness term of either system falls under
+   the absolute 1e-10 cut-off of the assembly (it is not unit-covariant: known finding K-C09-assembly-cutoff) and every
+   free equation has a stiffness term in both. *)
+Theorem C09_converted_displacements_solve_the_structure_in_other_units :
+  forall (lam phi : Q), ~ (lam == 0)%Q -> forall (rot : nat -> bool) (w : bool) (n : nat) (bs : list (bar Q)) (ds : list (list dof3))
+         (sup : list nat) (u : list Q),
+  let S := prepared_all w bs ds in
+  let S' := prepared_all w (map (units_bar lam phi) bs) ds in
+  Forall (good_slice lam phi rot n) (all_slices S) -> Forall (Forall (kinded rot)) ds ->
+  (forall i, (i < n)%nat -> is_supported sup i = false -> row_empty (all_contribs S) i = false /\ row_empty (all_contribs S') i = false) ->
+  solves n S sup u -> solves n S' sup (conv_u lam rot n u).
+Proof. exact structure_in_other_units. Qed.
+Print Assumptions C09_converted_displacements_solve_the_structure_in_other_units.
+
+(* the same for any two sliced structures related bar by bar (nodes at the same positions carrying the converted loads) *)
+Theorem C09_converted_displacements_solve_the_converted_system :
+  forall (lam phi : Q), ~ (lam == 0)%Q -> forall (rot : nat -> bool) (n : nat) (S S' : list (pbar Q)) (sup : list nat) (u : list Q),
+  Forall2 (pbar_units lam phi) S S' ->
+  Forall (good_slice lam phi rot n) (all_slices S) -> Forall (fun p => Forall (kinded rot) (pb_dofs p)) S ->
+  (forall i, (i < n)%nat -> is_supported sup i = false -> row_empty (all_contribs S) i = false /\ row_empty (all_contribs S') i = false) ->
+  solves n S sup u -> solves n S' sup (conv_u lam rot n u).
+Proof. exact converted_displacements_solve_the_converted_system. Qed.
+Print Assumptions C09_converted_displacements_solve_the_converted_system.
+
+(* not vacuous: a cantilever of two finite elements with a unit load in the middle (cm, N) and the same in m, kN;
+   u solves the first system, every hypothesis holds, and the conclusion is checked by computation as well *)
+Definition c09_cbar : bar Q := {| b_n1 := 0; b_n2 := 1; b_l1 := rigid; b_l2 := rigid; b_x1 := 0; b_y1 := 0; b_x2 := 2; b_y2 := 0;
+  b_L := 2; b_c := 1; b_s := 0; b_E := 1; b_A := 1; b_I := 1; b_S := 1; b_rho := 0; b_cl := []; b_dl := [] |}.
+Definition c09_nd (t x : Q) (e : tor Q) : pnode Q := {| pn_t := t; pn_x := x; pn_y := 0; pn_ext := e; pn_left := (0, 0, 0); pn_right := (0, 0, 0) |}.
+Definition c09_S : list (pbar Q) :=
+  [ {| pb_bar := c09_cbar; pb_nodes := [c09_nd 0 0 (0, 0, 0); c09_nd (1 # 2) 1 (0, 1, 0); c09_nd 1 2 (0, 0, 0)];
+       pb_dofs := [(0, 1, 2)%nat; (3, 4, 5)%nat; (6, 7, 8)%nat] |} ].
+Definition c09_S' : list (pbar Q) :=
+  [ {| pb_bar := units_bar (1 # 100) (1 # 1000) c09_cbar;
+       pb_nodes := [c09_nd 0 0 (0, 0, 0); c09_nd (1 # 2) (1 # 100) (0, 1 # 1000, 0); c09_nd 1 (2 # 100) (0, 0, 0)];
+       pb_dofs := [(0, 1, 2)%nat; (3, 4, 5)%nat; (6, 7, 8)%nat] |} ].
+Definition c09_u : list Q := [0; 0; 0; 0; 1 # 3; 1 # 2; 0; 5 # 6; 1 # 2].
+Definition c09_sup : list nat := [0; 1; 2]%nat.
+Definition c09_rot (i : nat) : bool := Nat.eqb (Nat.modulo i 3) 2.
+
+Example C09_structure_hypotheses_satisfiable :
+  Forall2 (pbar_units (1 # 100) (1 # 1000)) c09_S c09_S' /\
+  Forall (good_slice (1 # 100) (1 # 1000) c09_rot 9) (all_slices c09_S) /\
+  Forall (fun p => Forall (kinded c09_rot) (pb_dofs p)) c09_S /\
+  (forall i, (i < 9)%nat -> is_supported c09_sup i = false ->
+     row_empty (all_contribs c09_S) i = false /\ row_empty (all_contribs c09_S') i = false) /\
+  solves 9 c09_S c09_sup c09_u /\
+  map Qred (conv_u (1 # 100) c09_rot 9 c09_u) = [0; 0; 0; 0; 1 # 300; 1 # 2; 0; 1 # 120; 1 # 2].
+Proof.
+  split.
+  { constructor; [| constructor]. unfold pbar_units. split; [reflexivity|]. split; [reflexivity|].
+    repeat constructor; vm_compute; reflexivity. }
+  split.
+  { apply Forall_forall. intros sl Hin. vm_compute in Hin.
+    destruct Hin as [<- | [<- | []]];
+      (split; [apply no_tiny_b_sound; vm_compute; reflexivity|]);
+      (split; [apply no_tiny_b_sound; vm_compute; reflexivity|]);
+      (split; [vm_compute; discriminate|]);
+      (split; [repeat split; reflexivity|]);
+      (split; [repeat split; reflexivity|]);
+      repeat constructor. }
+  split; [repeat constructor|].
+  split.
+  { intros i Hi. do 9 (destruct i as [|i]; [vm_compute; intros; try discriminate; split; reflexivity|]). exfalso; lia. }
+  split; [| vm_compute; reflexivity].
+  intros i Hi. do 9 (destruct i as [|i]; [vm_compute; reflexivity|]). exfalso; lia.
+Qed.
